@@ -94,7 +94,8 @@ func DeepRoots(v ssa.Value) []string {
 		case *ssa.Call:
 			n := CalleeName(x.Common())
 			set["call:"+n] = true
-			if strings.HasPrefix(n, "math.") || strings.HasPrefix(n, "strconv.") || strings.HasPrefix(n, "builtin.") {
+			if strings.HasPrefix(n, "math.") || strings.HasPrefix(n, "strconv.") || strings.HasPrefix(n, "builtin.") ||
+				strings.HasPrefix(n, "(time.") || strings.HasPrefix(n, "time.") || n == "0chain.net/core/common.ToTime" {
 				for _, a := range x.Call.Args {
 					walk(a, d+1)
 				}
